@@ -175,6 +175,13 @@ package runner
 
 //@ func (*TaskRunner).before
 //@   requires runnerOK(r) && t != nil && execContext != nil && vars != nil && env != nil && compiledClosed()
+// C08 / C09: every hook command runs on an executor made for it (an executor keeps its interpreter's working
+// directory and environment between runs; one shared by the stages of a task would carry them across)
+//@   ghostlocal hookExec *executor.DefaultExecutor
+//@   callsite NewDefaultExecutor
+//@     ghost hookExec = result
+//@   callsite Execute
+//@     requires #C08.hook-command-has-its-own-executor recv == hookExec && fresh(hookExec)
 //@   callsite CompileCommand
 //@     requires #C13.hook-carries-task-timeout arg3 == t.Timeout && arg2 == t.Dir && arg7 == env && arg8 == vars
 //@     requires #C11.hook-output-is-not-captured arg5 == r.Stdout && arg6 == r.Stderr // hooks and the condition write to the runner's own streams, never into the task's captured output
@@ -191,6 +198,13 @@ package runner
 
 //@ func (*TaskRunner).after
 //@   requires runnerOK(r) && t != nil && execContext != nil && vars != nil && env != nil && compiledClosed()
+// C08 / C09: every hook command runs on an executor made for it (an executor keeps its interpreter's working
+// directory and environment between runs; one shared by the stages of a task would carry them across)
+//@   ghostlocal hookExec *executor.DefaultExecutor
+//@   callsite NewDefaultExecutor
+//@     ghost hookExec = result
+//@   callsite Execute
+//@     requires #C08.hook-command-has-its-own-executor recv == hookExec && fresh(hookExec)
 //@   callsite CompileCommand
 //@     requires #C13.hook-carries-task-timeout arg3 == t.Timeout && arg2 == t.Dir && arg7 == env && arg8 == vars
 //@     requires #C11.hook-output-is-not-captured arg5 == r.Stdout && arg6 == r.Stderr // hooks and the condition write to the runner's own streams, never into the task's captured output
@@ -247,9 +261,14 @@ package runner
 //@   ensures #C14.context-after-at-most-once calls(After) <= 1 && calls(contextForTask) <= 1
 //@   callsite contextForTask
 //@     requires #C14.context-resolved-once calls(contextForTask) == 0
+// resolving the context runs its `up` and `before` commands: only a run Cancel will wait for may do that
+//@     requires #C12.only-a-registered-run-starts-commands calls(Add) == 1 && calls(Done) == 0
 //@     ghost gCtxOK = result#1 == nil
 //@   callsite NewTaskOutput
+//@     requires #C19.format-chosen-for-this-run-only (t.Interactive ==> arg1 == "raw") && (!t.Interactive ==> arg1 == old(r.OutputFormat))
 //@     ghost gOutErr = result#1
+// C19: the raw override for an interactive task is a decision of this run; the runner's selected format is not rewritten
+//@   ensures #C19.selected-format-kept r.OutputFormat == old(r.OutputFormat)
 //@   callsite After
 //@     requires #C14.after-once calls(After) == 0 && calls(contextForTask) == 1
 //@   callsite checkTaskCondition
